@@ -452,7 +452,7 @@ var (
 	baseOrder []baseKey
 )
 
-const baseCacheMax = 24
+const baseCacheMax = 48
 
 // getBase runs the honest protocol for (curve, seed) with inputs a, b taken
 // from the seed's DRBG, verifies the result against the oracle and keeps all
@@ -514,11 +514,13 @@ func baseFail(curve string, seed uint64, err error) ev.Outcome {
 	return ev.Fail("base-run/failed", "honest protocol run (curve %s, seed %d) failed: %v", curve, seed, err)
 }
 
-// callRound runs f and converts a panic into a violation signature.
-func callRound(stage string, f func() error) (err error, panicSig, panicMsg string) {
+// callRound runs f and converts a panic into a violation signature that names
+// the round function, the innermost frame of the code under test and the kind
+// of value that was foreign or mutated.
+func callRound(stage, kind string, f func() error) (err error, panicSig, panicMsg string) {
 	defer func() {
 		if r := recover(); r != nil {
-			panicSig = "panic/" + stage + "/" + ev.PanicSite()
+			panicSig = "panic/" + stage + "/" + ev.PanicSite() + "/" + kind
 			panicMsg = fmt.Sprintf("panic in %s: %v\n%s", stage, r, ev.ShortStack())
 		}
 	}()
